@@ -451,8 +451,92 @@ func TestC16(t *testing.T) {
 			}
 		}
 	}
+	for i, lc := range []struct {
+		recv string
+		skip bool
+	}{{"lab", false}, {"", false}, {"lab", true}} {
+		id := fmt.Sprintf("many/%d", i)
+		if !run.Mine(i) || !run.Want(id) {
+			continue
+		}
+		run.Journal(id, "")
+		var res []*c01Result
+		err := Bubble(t, func() { res = runC16Many(run, run.Seed()*61+int64(i), lc.recv, lc.skip) })
+		if err != nil {
+			res = append(res, &c01Result{"C16/bubble", err.Error()})
+		}
+		for _, r := range res {
+			run.Violation(id, r.Key, r.What, map[string]any{"receiver_label": lc.recv, "skip": lc.skip})
+		}
+	}
 	run.Complete()
 	if run.Violations() > 0 {
 		t.Errorf("%d violation(s)", run.Violations())
 	}
+}
+
+// runC16Many: a long series of inbound streams for other labels (more than the 128 push/pull slots the
+// node has) must leave no trace: afterwards no slot is held and a genuine exchange under the node's own
+// label is served as before.
+func runC16Many(run *Run, seed int64, recv string, skip bool) (out []*c01Result) {
+	fail := func(key, f string, a ...any) {
+		out = append(out, &c01Result{"C16/" + key, fmt.Sprintf(f, a...)})
+	}
+	rig, err := NewRig(RigOpts{Seed: seed, Label: recv, Spec: NodeSpec{Name: "V", IP: "10.9.9.9", Mutate: func(cf *memberlist.Config) {
+		cf.ProbeInterval = noProbe
+		cf.PushPullInterval = 0
+		cf.GossipInterval = 0
+		cf.SkipInboundLabelCheck = skip
+		cf.TCPTimeout = 2 * time.Second
+	}}})
+	if err != nil {
+		fail("harness/create", "%v", err)
+		return
+	}
+	defer rig.Close()
+	rig.NoHeader = skip
+	x := rig.AddPeer("x", "10.9.1.1", 7946)
+	rig.Introduce(x, 1)
+	Settle(time.Millisecond)
+	foreign := []string{recv + "x", "zz", strings.Repeat("L", 255)}
+	if recv != "" && !skip {
+		foreign = append(foreign, "", recv[:len(recv)-1])
+	}
+	for i := 0; i < 140; i++ {
+		lb := foreign[i%len(foreign)]
+		ce, err := x.EP.DialAddressTimeout(memberlist.Address{Addr: rig.V.EP.Addr, Name: "V"}, time.Second)
+		if err != nil {
+			fail("harness/dial", "%v", err)
+			return
+		}
+		c := ce.(*ConnEnd)
+		_, _ = c.Write(LabelHeader(lb))
+		body := BuildPushPull(i%2 == 0, []WPushNodeState{{Name: fmt.Sprintf("intruder-%d", i), Addr: []byte{10, 9, 3, byte(i%250 + 1)}, Port: 7946, Incarnation: 1, State: SAlive, Vsn: DefaultVsn()}}, nil)
+		if i%3 == 2 {
+			body = Enc(TPing, &WPing{SeqNo: uint32(5000 + i), Node: "V"})
+		}
+		_, _ = c.Write(body)
+		Settle(5 * time.Millisecond)
+		if n := len(drain(c)); n > 0 {
+			fail("leak/many", "stream #%d for label %q (receiver label %q, skip=%v) was answered with %d bytes", i, lb, recv, skip, n)
+			c.Close()
+			return
+		}
+		c.Close()
+	}
+	Settle(3 * time.Second)
+	run.Eval(1)
+	run.Cell("iso", "many-foreign-streams", fmt.Sprintf("recv=%d", len(recv)), fmt.Sprintf("skip=%v", skip))
+	if n := rig.V.ML().VerifPushPullInFlight(); n != 0 {
+		fail("leak/many/slots", "after 140 streams for other labels the node holds %d of its push/pull slots although no stream is open (receiver label %q, skip=%v)", n, recv, skip)
+		return
+	}
+	if len(rig.V.MemberNames()) != 2 {
+		fail("leak/many", "membership changed: %v", rig.V.MemberNames())
+	}
+	frames, _, err := x.PushPull(true, []WPushNodeState{x.Self(1)}, nil)
+	if err != nil || len(frames) == 0 {
+		fail("leak/many/service", "after 140 streams for other labels a genuine join push/pull under the node's own label is no longer served (err=%v, %d frames)", err, len(frames))
+	}
+	return
 }
